@@ -193,10 +193,16 @@ func mathRandom(L *LState) int {
 		L.Push(LNumber(rand.Float64()))
 	case 1:
 		n := L.CheckInt(1)
+		if n < 1 {
+			L.ArgError(1, "interval is empty")
+		}
 		L.Push(LNumber(rand.Intn(n) + 1))
 	default:
 		min := L.CheckInt(1)
 		max := L.CheckInt(2) + 1
+		if max-min <= 0 {
+			L.ArgError(2, "interval is empty")
+		}
 		L.Push(LNumber(rand.Intn(max-min) + min))
 	}
 	return 1
